@@ -200,8 +200,11 @@ class Task:
 class Scheduler:
     """Run several coroutines; ``choices`` decides who advances at each step."""
 
-    def __init__(self, ctx, named_coros, choices, cancel=None, on_step=None, max_steps=20000):
+    def __init__(self, ctx, named_coros, choices, cancel=None, on_step=None, max_steps=20000,
+                 default="rr"):
         cancel = cancel or {}
+        self.default = default  # after ``choices`` run out: round robin | always the first ready task
+        self.branching = []     # number of ready tasks at each step (for exhaustive enumeration)
         self.ctx = ctx
         self.tasks = [
             Task(name, coro, *(cancel.get(name) or (None, None))) for name, coro in named_coros
@@ -255,8 +258,11 @@ class Scheduler:
             if not ready:
                 self.verdict = "deadlock"
                 break
+            self.branching.append(len(ready))
             if k < len(self.choices):
                 pick = ready[self.choices[k] % len(ready)]
+            elif self.default == "first":
+                pick = ready[0]
             else:
                 pick = ready[rr % len(ready)]
                 rr += 1
@@ -379,3 +385,25 @@ def close_orphans(ctx):
             pass
         n += 1
     return n
+
+
+def all_schedules(run_with, limit=50000):
+    """Enumerate every schedule of a deterministic scenario.
+
+    ``run_with(prefix)`` runs the scenario with ``Scheduler(choices=prefix, default="first")`` and
+    returns that scheduler.  Yields nothing; calls run_with once per distinct complete schedule.
+    Returns (number of schedules, exhausted: bool).
+    """
+    stack = [[]]
+    count = 0
+    while stack:
+        prefix = stack.pop()
+        sched = run_with(prefix)
+        count += 1
+        if count >= limit:
+            return count, False
+        branching = sched.branching
+        for k in range(len(prefix), len(branching)):
+            for alt in range(1, branching[k]):
+                stack.append(prefix + [0] * (k - len(prefix)) + [alt])
+    return count, True
